@@ -313,20 +313,34 @@ func (c *Container) skip(n int) {
 
 // GetNextBlock returns the next block of data defined by a varint. Data MAY be copied and IS consumed.
 func (c *Container) GetNextBlock() ([]byte, error) {
-	blockSize, err := c.GetNextN64()
+	blockSize, err := c.getNextBlockSize()
 	if err != nil {
 		return nil, err
 	}
-	return c.Get(int(blockSize))
+	return c.Get(blockSize)
 }
 
 // GetNextBlockAsContainer returns the next block of data as a Container defined by a varint. Data will NOT be copied and IS consumed.
 func (c *Container) GetNextBlockAsContainer() (*Container, error) {
-	blockSize, err := c.GetNextN64()
+	blockSize, err := c.getNextBlockSize()
 	if err != nil {
 		return nil, err
 	}
-	return c.GetAsContainer(int(blockSize))
+	return c.GetAsContainer(blockSize)
+}
+
+// getNextBlockSize parses the varint length prefix of the next block and consumes it
+// only if the container holds the complete block.
+func (c *Container) getNextBlockSize() (int, error) {
+	blockSize, n, err := varint.Unpack64(c.Peek(10))
+	if err != nil {
+		return 0, err
+	}
+	if blockSize > uint64(c.Length()-n) {
+		return 0, errors.New("container: not enough data for given block length")
+	}
+	c.skip(n)
+	return int(blockSize), nil
 }
 
 // GetNextN8 parses and returns a varint of type uint8.
